@@ -70,6 +70,54 @@ def run_job(job, prop, case=None):
     raise ValueError('unknown job kind %r' % kind)
 
 
+RAISE_IS_VIOLATION = ('C05', 'C06', 'C14', 'C15', 'C16', 'C18')
+
+
+def _raised_by_topsim(e, job, prop):
+    """An exception that escaped from topsim itself (innermost frame inside the repository's
+    package) while the harness was calling it with valid input: for the properties whose
+    functions must not fail on valid input this is a violation, not a harness failure."""
+    import traceback as tb
+    from . import sim
+    from .common import REPO
+    if prop not in RAISE_IS_VIOLATION:
+        return None
+    frames = tb.extract_tb(e.__traceback__)
+    root = os.path.join(os.path.abspath(REPO), 'topsim')
+    if not frames or not os.path.abspath(frames[-1].filename).startswith(root):
+        return None
+    where = sim._innermost_topsim_frame(e) or {}
+    case = None
+    try:
+        case = campaign.make_sim_case(job) if job['kind'] == 'sim' else None
+    except Exception:
+        pass
+    v = {'prop': prop, 'clause': 'topsim_raised_on_valid_input', 'exc': type(e).__name__,
+         'func': where.get('func'), 'file': where.get('file'), 'msg': str(e)[:160],
+         'stage': job['kind']}
+    return {'hash': case_hash(job), 'case': case or {'job': job}, 'viol': [v], 'cnt': {},
+            'outcome': 'raised:%s@%s' % (type(e).__name__, where.get('func')), 'nontrivial': False}
+
+
+def _livelock_retry(job, prop, real_stdout, devnull):
+    case = campaign.make_sim_case(job)
+    sys.stdout = devnull
+    signal.alarm(60)
+    try:
+        run_job(job, prop)
+        return None
+    except CaseTimeout:
+        v = {'prop': prop, 'clause': 'livelock_inside_one_event', 'stage': 'sim',
+             'msg': 'no return within 150 s and again within 60 s when re-run alone'}
+        return {'hash': case_hash(case), 'case': case, 'viol': [v], 'cnt': {},
+                'outcome': 'livelock', 'nontrivial': False}
+    except Exception:
+        return None
+    finally:
+        signal.alarm(0)
+        sys.stdout = real_stdout
+
+
 def main(argv):
     prop, tier, seed, shard, nshards, outpath = argv[:6]
     seed, shard, nshards = int(seed), int(shard), int(nshards)
@@ -96,12 +144,20 @@ def main(argv):
             out = run_job(job, prop)
         except CaseTimeout:
             agg['timeouts'] += 1
-            agg['inconclusive']['watchdog'] += 1
-            continue
-        except Exception as e:  # harness failure: inconclusive, never a verdict
-            agg['inconclusive']['harness: %s: %s' % (type(e).__name__, str(e)[:120])] += 1
-            agg.setdefault('harness_tb', traceback.format_exc()[-1500:])
-            continue
+            out = None
+            if prop == 'C05' and job['kind'] == 'sim':
+                # a simulation normally takes well under a second: run it once more alone; if it
+                # hangs again this is a deterministic livelock, which C05 forbids
+                out = _livelock_retry(job, prop, real_stdout, devnull)
+            if out is None:
+                agg['inconclusive']['watchdog'] += 1
+                continue
+        except Exception as e:
+            out = _raised_by_topsim(e, job, prop)
+            if out is None:     # harness failure: inconclusive, never a verdict
+                agg['inconclusive']['harness: %s: %s' % (type(e).__name__, str(e)[:120])] += 1
+                agg.setdefault('harness_tb', traceback.format_exc()[-1500:])
+                continue
         finally:
             signal.alarm(0)
             sys.stdout = real_stdout
